@@ -92,6 +92,21 @@ def explore_cfg(cfg, delivery='eager', oracle=None, bound=None,
                                    max_seconds=max_seconds)
 
 
+LAST_SCHEDULE = [None]
+
+
+def replay_schedule(cfg, schedule, delivery, oracle, program=None,
+                    fine_files=()):
+    """Run ONE recorded schedule on a fresh world (no exploration)."""
+    explore.FINE['files'] = tuple(fine_files)
+    try:
+        w = explore.replay(cfg['world'], program or K.make_program(cfg),
+                           [tuple(t) for t in schedule], delivery)
+    finally:
+        explore.FINE['files'] = ()
+    return sim_bad(w) or (oracle(w) if oracle else [])
+
+
 def absorb(part, res, key, viols):
     for k in ('executions', 'states', 'transitions', 'terminals',
               'branching_states', 'multi_history_vectors'):
@@ -105,6 +120,8 @@ def absorb(part, res, key, viols):
         viols.append(('outcomes', f'{len(res.outcomes)} distinct terminal '
                       'outcomes over the explored schedules'))
     viols += [(k, f'{t} [schedule={s}]') for k, t, s in res.violations]
+    LAST_SCHEDULE[0] = [list(t) for t in res.violations[0][2]] \
+        if res.violations else None
     part.sample({'exploration': key, **res.as_dict(),
                  'sample_schedule': [list(t) for t in
                                      (res.sample_schedules or [[]])[0]][:40]},
